@@ -159,6 +159,11 @@ def _transform_all(root: str, how: str) -> Tuple[bool, str]:
 def _apply(case: Dict[str, Any], root: str) -> Tuple[bool, str]:
     if case.get('transform'):
         return _transform_all(root, case['transform'])
+    if case.get('patch'):
+        # an adopted behaviour-preserving refactoring is applied first; the case's edits then change the refactored code
+        ap = subprocess.run(['patch', '-p1', '-s', '-d', root, '-i', os.path.join(VERIF, case['patch'])], capture_output=True, text=True)
+        if ap.returncode != 0:
+            return False, f'patch-stale: {case["patch"]}'
     for ed in case['edits']:
         p = os.path.join(root, ed['file'])
         if not os.path.exists(p):
